@@ -57,6 +57,9 @@ CHECKS = {
  "C15": ("other", "lemmas over the proved validator contracts, one per (keyword -> constraint) pair of CONSTRAINTS_MAP read from constant.py on every run",
          "For every standard keyword of the parser table the constraint it is mapped to accepts only values for which the keyword holds (the built type is at least as strict as the schema, 15 lemmas, all inputs). "
          "`building a type succeeds` and validity of returned instances against the whole schema are not decided - hence 'other'.", "DESIGN 3 C15"),
+ "C17": ("other", "contract-based deductive verification of register_forward_ref (registration completeness) and resolve_forward_type",
+         "R1: a reference that cannot be evaluated yet is remembered under the key of its declaration site together with its constraints; R2: an evaluated reference is replaced by its value and reported, others are unchanged. "
+         "Equality of behaviour with the direct spelling for every definition / first-use order, postponed evaluation and local scopes depends on typing's evaluator and module globals and is not decided - hence 'other'.", "DESIGN 3 C17"),
  "C16": ("proof", "contract-based deductive verification: representation invariant of TypeRegistry preserved by every operation",
          "The registry's list/cache are related to an abstract view (entries with priority and ghost registration stamp); "
          "I1 priority order, I2 most-recent-first, I3 cache coherence, I4 stamps are established by __init__ and preserved by the register "
